@@ -49,7 +49,7 @@ int main(void) {
 	setvbuf(stdout, NULL, _IOLBF, 0);
 	say("ready %d", (int)getpid());
 	while ((n = getline(&line, &cap, stdin)) > 0) {
-		char cmd[32], name[128]; int hid = 0, a1 = 0, a2 = 0; long long l1 = 0, l2 = 0, l3 = 0; PError *err = NULL; char *args;
+		char cmd[32], name[1024]; int hid = 0, a1 = 0, a2 = 0; long long l1 = 0, l2 = 0, l3 = 0; PError *err = NULL; char *args;
 		if (line[n - 1] == '\n') line[n - 1] = 0;
 		if (sscanf(line, "%31s", cmd) != 1) continue;
 		args = line + strlen(cmd);
@@ -69,7 +69,7 @@ int main(void) {
 		/* ---------------- semaphore ---------------- */
 		else if (!strcmp(cmd, "new")) {
 			char mode;
-			if (sscanf(args, "%d %127s %d %c", &hid, name, &a1, &mode) != 4 || hid < 0 || hid >= MAXH) { say("err"); continue; }
+			if (sscanf(args, "%d %1023s %d %c", &hid, name, &a1, &mode) != 4 || hid < 0 || hid >= MAXH) { say("err"); continue; }
 			sem[hid] = p_semaphore_new(name, a1, mode == 'c' ? P_SEM_ACCESS_CREATE : P_SEM_ACCESS_OPEN, &err);
 			if (sem[hid]) say("ok"); else say("fail %d %d", err ? p_error_get_code(err) : 0, err ? p_error_get_native_code(err) : 0);
 		}
@@ -80,7 +80,7 @@ int main(void) {
 		else if (!strcmp(cmd, "acq_bg") || !strcmp(cmd, "lock_bg")) { Bg *b = calloc(1, sizeof *b); pthread_t t; sscanf(args, "%d %31s", &b->hid, b->tag); b->kind = cmd[0] == 'a' ? 0 : 1; pthread_create(&t, NULL, bg_fn, b); pthread_detach(t); say("ok"); }
 		else if (!strcmp(cmd, "churn")) {     /* churn <name> <iters> <ownpct>: open(OPEN,1) / [take_ownership] / acquire / release / free in a loop */
 			int iters, ownpct, i, fails = 0; unsigned x = (unsigned)getpid() * 2654435761u;
-			if (sscanf(args, "%127s %d %d", name, &iters, &ownpct) != 3) { say("err"); continue; }
+			if (sscanf(args, "%1023s %d %d", name, &iters, &ownpct) != 3) { say("err"); continue; }
 			for (i = 0; i < iters; i++) {
 				PSemaphore *sm = p_semaphore_new(name, 1, P_SEM_ACCESS_OPEN, NULL);
 				if (!sm) { fails++; continue; }              /* the name vanished between the two sem_open calls: allowed to fail */
@@ -103,7 +103,7 @@ int main(void) {
 		/* ---------------- shared memory ---------------- */
 		else if (!strcmp(cmd, "shmnew")) {
 			char perm;
-			if (sscanf(args, "%d %127s %lld %c", &hid, name, &l1, &perm) != 4 || hid < 0 || hid >= MAXH) { say("err"); continue; }
+			if (sscanf(args, "%d %1023s %lld %c", &hid, name, &l1, &perm) != 4 || hid < 0 || hid >= MAXH) { say("err"); continue; }
 			shm[hid] = p_shm_new(name, (psize)l1, perm == 'r' ? P_SHM_ACCESS_READONLY : P_SHM_ACCESS_READWRITE, &err);
 			if (shm[hid]) say("ok %llu %p", (unsigned long long)p_shm_get_size(shm[hid]), p_shm_get_address(shm[hid])); else say("fail %d %d", err ? p_error_get_code(err) : 0, err ? p_error_get_native_code(err) : 0);
 		}
